@@ -4,6 +4,7 @@ package snaps
 
 import (
 	"github.com/gkampitakis/go-snaps/internal/vxrt"
+	"github.com/goccy/go-yaml"
 )
 
 // yamlDoc returns a document: fully symbolic (shape 0) or one of the
@@ -71,6 +72,11 @@ func H_C18_yaml() {
 	t1 := vxNewT("TestA")
 	c.MatchYAML(t1, in)
 	t1.end()
+	// the reference verdict: what the YAML library says about the document as such (decoded into
+	// an empty interface, which every valid document fits)
+	var ref any
+	refValid := yaml.Unmarshal([]byte(doc), &ref) == nil
+	vxrt.Assert((len(t1.errors) == 0) == refValid, "C18:accepted-iff-valid-yaml")
 	if len(t1.errors) > 0 {
 		vxrt.Reach("invalid")
 		// the library said invalid: one error, nothing written
